@@ -104,7 +104,7 @@ func (p *Unsubscribe) UnmarshalBinary(data []byte) error {
 	b.get(&p.packetID)
 	b.getAny(nil, p.appendUserProperty)
 
-	for {
+	for !b.atEnd() {
 		var f wstring
 		b.get(&f)
 		p.filters = append(p.filters, f)
